@@ -33,7 +33,8 @@ def cxx_name(cname):
 def wrapper_eval(prog, f):
     """(Evaluator, paths) of extern "C" wrapper f; MASA:: callees are opaque, their writable pointer / reference arguments
     become ('call', 'out:<callee>:<index>', ())"""
-    E = terms.Evaluator(prog, inline=False)
+    # file-local helpers of cmasa.cpp are inlined; every MASA:: callee is intercepted by the hook below and stays opaque
+    E = terms.Evaluator(prog, noreturn=())
 
     def hook(ev, e, n, obj, args_e, P, fr):
         q = e.get('q') or ''
@@ -286,6 +287,25 @@ def check_get_array(f, ret_paths):
                     copied = True
             if e[0] == 'libcall' and e[1][0] in ('memcpy', 'memmove') and e[1][1] and e[1][1][0] == ('sym', aname):
                 undecided = 'the elements are copied with %s: byte count not decided' % e[1][0]
+            if e[0] == 'loop' and e[1][0] is not None and e[1][0][0] == 'call' and e[1][0][1] == 'op:operator!=':
+                # iterator over the vector and a pointer walking the array in step: for (it = V.begin(); it != V.end(); ++it) *out++ = *it
+                c = e[1][0]
+                itv, endv = c[2]
+                whole = itv[0] == 'call' and itv[1] == 'loopvar' and itv[2][0] == ('mcall', V, 'begin', ()) and endv == ('mcall', V, 'end', ())
+                for kind, conds, sub in e[1][1]:
+                    wr = [x for x in sub if x[0] == 'write-through']
+                    if not wr:
+                        continue
+                    dl = {x[1][0]: x[1][1] for x in sub if x[0] == 'delta'}
+                    tgt = wr[0][1]
+                    outv = tgt if (tgt[0] == 'call' and tgt[1] == 'loopvar' and tgt[2][0] == ('sym', aname)) else None
+                    good = whole and len(wr) == 1 and not conds and kind in ('fall', 'cont') and outv is not None and len(wr[0]) > 3 and \
+                        wr[0][3] == ('call', 'op:operator*', (itv,)) and \
+                        any(v_ == ('add', (outv, terms.num(1))) for v_ in dl.values()) and any(v_ == ('call', 'op:operator++', (itv,)) for v_ in dl.values())
+                    if not good:
+                        return False, 'the copy loop at %s does not copy every element of the vector to consecutive array positions' % e[2]
+                    copied = True
+                continue
             if e[0] == 'loop' and e[1][0] is not None:
                 c = e[1][0]
                 ok_c = c[0] == 'cmp' and c[1] in ('<', '!=') and c[2][0] == 'call' and c[2][1] == 'loopvar' and c[2][2][0] == terms.num(0) and \
